@@ -521,3 +521,19 @@ def run(ck):
         if ftys:
             odd = {n_: t for n_, t in ftys.items() if 'Option<i32>' not in (t or '')}
             ck.ob('R12.6', 'slots-can-hold-every-i32', not odd, '', 'LayoutAttributes lists are Vec<Option<i32>>' if not odd else 'list element types %s cannot hold every i32 that an attachment can carry' % odd)
+
+    # ---- R12.7 the index that is range-checked and recorded is the value the source denotes, and the .ui on disk is this run's ---------------
+    ck.rule('R12.7', 'index values reach the layout code unchanged and the written .ui is the one just built (shared with C03, C01, C15)')
+    import rules.c03 as c03
+    s3 = _core.Shared(ck, 'R12.7', lambda r, k: r == 'R3.4' and k.startswith(('get_i32|', 'get_enum|', 'get_simple_value|')), 'C03:',
+                      ' [a row/column/count that is folded on its way from the constant to the range check passes the check with another value]')
+    c03.run(s3)
+    import rules.c01 as c01
+    s1 = _core.Shared(ck, 'R12.7', lambda r, k: r == 'R1.2' and ('|Integer|' in k or k.startswith('overflow-is-error')), 'C01:',
+                      ' [indices may be constant expressions: `QLayout.column: 7 % 3` must be column 1]')
+    c01.run(s1)
+    import rules.c15 as c15
+    s15 = _core.Shared(ck, 'R12.7', lambda r, k: (r == 'R15.4' and k.endswith('|skipped-only-if-same-bytes')) or (r == 'R15.5' and (k == 'ui-path-gets-form-xml' or k.startswith('buffer-starts-empty|'))), 'C15:',
+                       ' [a layout edit that keeps the length of the .ui must still replace the file]')
+    c15.run(s15)
+    ck.floor('R12.7', s3.count + s1.count + s15.count, 20, 'shared C03 R3.4 / C01 R1.2 / C15 R15.4-5 obligations')
